@@ -3,7 +3,7 @@
    followed by Print Assumptions.  [collect] is the model of collect_cython written as
    compiled.pyx:102-154 writes it; [UB] is an unchecked read outside the object. *)
 From Coq Require Import List ZArith Bool NArith.
-From Orso Require Import Model.C10 Proofs.C10 Proofs.C10_Frame.
+From Orso Require Import Model.C10 Proofs.C10 Proofs.C10_Frame Proofs.C10_Session.
 Import ListNotations.
 
 (* Rectangular tuple rows (every row as wide as the first), any index vector, any limit:
@@ -160,6 +160,7 @@ Theorem C10_frame_collect_correct :
   forall (A : Type) (w : nat) (k : backing) (rows : list (list A)) (pre : list (fop A))
          (cols : list Z) (limit : option Z),
   rectangular A w rows -> rows <> [] -> forallb is_read pre = true ->
+  (Z.of_nat w <= 2147483648)%Z -> limit_fits limit = true ->     (* round 3: the width and the limit fit a C int *)
   (forall c, In c cols -> (0 <= c < Z.of_nat w)%Z) ->
   exists res,
     nth_error (run (frame_init k (map RTuple rows)) (pre ++ [OpCollect cols limit])) (length pre)
@@ -181,6 +182,115 @@ Example C10_nonvacuous_frame :
   run (frame_init KDeque (map RTuple [[1; 2]]%Z)) [OpAppend [7; 8]%Z; OpGetitem [0%Z]]
   = [FNone; FCols (Ok [[1; 7]]%Z)].
 Proof. repeat split; reflexivity. Qed.
+
+(* ---- argument conversion of DataFrame.collect (round 3) ----
+   [df_collect_conv] is DataFrame.collect with the conversions Python performs on the way in: the index
+   vector becomes an int32 array (OverflowError outside the int32 range - no wrap-around), the limit a C int. *)
+
+(* Inside the ranges the conversion is the identity; outside, OverflowError whatever the rows. *)
+Theorem C10_df_conversion :
+  forall (A : Type) (rows : list (rowobj A)) (cols : list Z) (limit : option Z),
+  (forallb fits_int32 cols = true -> limit_fits limit = true ->
+     df_collect_conv rows cols limit = df_collect rows cols limit) /\
+  ((exists c, In c cols /\ ((c < -2147483648)%Z \/ (2147483647 < c)%Z)) \/
+   (exists l, limit = Some l /\ (2147483647 < l)%Z) ->
+     df_collect_conv rows cols limit = Raise OverflowError).
+Proof.
+  intros A rows cols limit. split.
+  - exact (df_conv_fits A rows cols limit).
+  - exact (df_conv_overflow A rows cols limit).
+Qed.
+Print Assumptions C10_df_conversion.
+
+(* "A column index outside 0..width-1 - negative, equal to the width, or larger - raises": for rectangular
+   tuple rows an index outside 0..width-1, HOWEVER FAR outside (2**32 + k included), never yields a result. *)
+Theorem C10_df_index_outside_never_ok :
+  forall (A : Type) (w : nat) (rows : list (list A)) (cols : list Z) (limit : option Z),
+  rectangular A w rows -> rows <> [] ->
+  (exists c, In c cols /\ ((c < 0)%Z \/ (Z.of_nat w <= c)%Z)) ->
+  forall res, df_collect_conv (map RTuple rows) cols limit <> Ok res.
+Proof. exact df_conv_outside_never_ok. Qed.
+Print Assumptions C10_df_index_outside_never_ok.
+
+Example C10_nonvacuous_conversion :
+  df_collect_conv (map RTuple [[1; 2]; [3; 4]]%Z) [4294967296%Z] None = Raise OverflowError /\
+  df_collect_conv (map RTuple [[1; 2]; [3; 4]]%Z) [0; (-4294967295)]%Z None = Raise OverflowError /\
+  df_collect_conv (map RTuple [[1; 2]; [3; 4]]%Z) [2147483647%Z] None = Raise IndexError /\
+  df_collect_conv (map RTuple [[1; 2]; [3; 4]]%Z) [0%Z] (Some 4294967297%Z) = Raise OverflowError /\
+  df_collect_conv (map RTuple [[1; 2]; [3; 4]]%Z) [1%Z] (Some 2147483647%Z) = Ok [[2; 4]]%Z.
+Proof. repeat split; reflexivity. Qed.
+
+(* ---- sessions: several row classes and frames alive in one process (round 3) ----
+   [sess_run st ops] are the outputs of the operations [ops] (create a row class, create a frame, act
+   on object i) on the heap [st] of objects, indexed by creation order. *)
+
+(* Locality: after ANY session the object at index i is what it would be had only the actions
+   addressed to it been performed on it alone - creating or using other classes / frames (with the
+   same field names or not, tuples-only or not) changes nothing about it. *)
+Theorem C10_session_local :
+  forall (A : Type) (keq : A -> A -> bool) (none : A)
+         (ops : list (sop A)) (st : list (obj A)) (i : nat) (o : obj A),
+  nth_error st i = Some o ->
+  nth_error (sess_state keq none st ops) i = Some (obj_after keq none o (actions_on i ops)).
+Proof. exact sess_state_local. Qed.
+Print Assumptions C10_session_local.
+
+(* ... hence what an action on object i returns at the end of any session is what it returns on that
+   object alone after the actions addressed to it. *)
+Theorem C10_session_output :
+  forall (A : Type) (keq : A -> A -> bool) (none : A)
+         (st : list (obj A)) (pre : list (sop A)) (i : nat) (o : obj A) (a : action A),
+  nth_error st i = Some o ->
+  nth_error (sess_run keq none st (pre ++ [On i a])) (length pre) =
+  Some (snd (obj_step keq none (obj_after keq none o (actions_on i pre)) a)).
+Proof. exact sess_output. Qed.
+Print Assumptions C10_session_output.
+
+(* The same for an object created in the middle of the session by [mk]: it starts as its constructor
+   arguments say (C10_session_new), whatever was created before. *)
+Theorem C10_session_output_created :
+  forall (A : Type) (keq : A -> A -> bool) (none : A)
+         (st : list (obj A)) (p1 p2 : list (sop A)) (mk : sop A) (o : obj A) (a : action A),
+  nth_error (fst (sess_step keq none (sess_state keq none st p1) mk)) (length (sess_state keq none st p1)) = Some o ->
+  nth_error (sess_run keq none st (p1 ++ mk :: p2 ++ [On (length (sess_state keq none st p1)) a]))
+            (length p1 + S (length p2)) =
+  Some (snd (obj_step keq none (obj_after keq none o (actions_on (length (sess_state keq none st p1)) p2)) a)).
+Proof. exact sess_output_created. Qed.
+Print Assumptions C10_session_output_created.
+
+Theorem C10_session_new :
+  forall (A : Type) (keq : A -> A -> bool) (none : A) (st : list (obj A)) (f : list A) (t : bool)
+         (k : backing) (names : list A) (rows : list (rowobj A)),
+  nth_error (fst (sess_step keq none st (NewClass f t))) (length st) = Some (OClass f t) /\
+  nth_error (fst (sess_step keq none st (NewFrame k names rows))) (length st)
+    = Some (OFrame names (frame_init k rows)).
+Proof. exact sess_new. Qed.
+Print Assumptions C10_session_new.
+
+(* What an ordinary row class makes of a dictionary (and so what DataFrame.append({...}) stores): one
+   cell per field of THAT class, in order - the value under the first equal key, else None. *)
+Theorem C10_row_class_extract :
+  forall (A : Type) (keq : A -> A -> bool) (none : A) (fields : list A) (d : list (A * A)),
+  length (make_row keq none fields false (DDict d)) = length fields /\
+  forall i f, nth_error fields i = Some f ->
+    nth_error (make_row keq none fields false (DDict d)) i =
+    Some (match lookup keq d f with Some v => v | None => none end).
+Proof. exact make_row_dict. Qed.
+Print Assumptions C10_row_class_extract.
+
+(* Non-vacuity: a tuples-only class for fields (10, 11), then an ordinary class for the same fields and a
+   frame over them; the dictionary {11: 7, 10: 8, 12: 9} goes through field extraction in the ordinary class
+   and in the frame's append, and is iterated (keys) only by the tuples-only class. *)
+Example C10_nonvacuous_session :
+  sess_run Z.eqb 0%Z []
+    [NewClass [10; 11]%Z true; NewClass [10; 11]%Z false; NewFrame KList [10; 11]%Z [RTuple [1; 2]%Z];
+     On 1 (AMake (DDict [(11, 7); (10, 8); (12, 9)]%Z));
+     On 0 (AMake (DDict [(11, 7); (10, 8); (12, 9)]%Z));
+     On 2 (AAppendDict [(11, 7); (12, 9)]%Z);
+     On 2 (AFrame (OpGetitem [0; 1]%Z))]
+  = [SNone; SNone; SNone; SRow [8; 7]%Z; SRow [11; 10; 12]%Z; SFrameOut FNone;
+     SFrameOut (FCols (Ok [[1; 0]; [2; 7]]%Z))].
+Proof. reflexivity. Qed.
 
 (* extract_dict_columns, all inputs: one output per requested field, in order; each is the value the
    dictionary lookup finds, else None. *)
